@@ -627,6 +627,7 @@ class PSFPhotometry(ModelImageMixin):
             finite_mask |= mask
             if np.any(finite_mask & ~mask):
                 warn_nonfinite()
+            mask = finite_mask
         else:
             mask = finite_mask
             if np.any(finite_mask):
